@@ -47,7 +47,9 @@ def run_native(prog_rel, args, extra_defs=(), timeout=60, sanitize=True):
         try:
             p = subprocess.run([exe] + [str(a) for a in args], stdout=subprocess.PIPE, stderr=subprocess.STDOUT,
                                timeout=timeout, env=env)
-            out = p.stdout.decode("utf-8", "replace")[-4000:]
+            out = p.stdout.decode("utf-8", "replace")
+            if len(out) > 4500:
+                out = out[:2000] + "\n[...]\n" + out[-2500:]
             rc = p.returncode
         except subprocess.TimeoutExpired:
             return dict(built=True, output="native replay timed out", reproduced=None)
@@ -107,9 +109,11 @@ HANDLERS = {
     # decode layer: the failed obligation is about one abstract transition; the replay SEARCHES for a concrete failing
     # input of cbor_load on the real code against an RFC 8949 reference (replay/load_oracle.c), inputs or not
     "load_oracle": lambda inputs, proof: run_native("load_oracle.c", [], timeout=300),
+    # copy layer: same idea (replay/copy_oracle.c: copy every small decoded tree, compare, release, refuse allocations)
+    "copy_oracle": lambda inputs, proof: run_native("copy_oracle.c", [], timeout=300),
 }
 # handlers that do not need an input assignment from the verifier
-SWEEP_HANDLERS = {"load_oracle"}
+SWEEP_HANDLERS = {"load_oracle", "copy_oracle"}
 
 
 def write_replay(pid, proof, r, obs):
@@ -146,9 +150,9 @@ def write_replay(pid, proof, r, obs):
                 info["reproduced_on_real_code"] = True
                 info["counterexample_inputs"] = ob["inputs"]
                 if handler in SWEEP_HANDLERS:
-                    info["failing_input_found_by"] = ("native sweep of the real code against the RFC 8949 reference "
-                                                      "(replay/load_oracle.c); the failing input is in the output below, it "
-                                                      "is not derived from the verifier's trace")
+                    info["failing_input_found_by"] = ("native sweep of the real code against a reference "
+                                                      "(replay/%s.c); the failing input is in the output below, it "
+                                                      "is not derived from the verifier's trace" % handler)
                 break
             if handler in SWEEP_HANDLERS:
                 break   # one sweep per replay file
